@@ -612,6 +612,29 @@ func extractAll() {
 		}
 		addBool("sioServerAckIdFromNamespace", fromNsp, rel)
 	}
+	// ---- eio.Server.Close: the closed flag is set before the existing sessions are closed (a handshake served while they are
+	// being closed is then refused, or re-checked away by newSocket)
+	{
+		rel := "engine.io/server.go"
+		fd := findFunc(load(rel), "Server", "Close")
+		flagPos, closeAllPos := token.NoPos, token.NoPos
+		if fd != nil {
+			ast.Inspect(fd, func(x ast.Node) bool {
+				if c, ok := x.(*ast.CallExpr); ok {
+					if id, ok := c.Fun.(*ast.Ident); ok && id.Name == "close" && len(c.Args) == 1 && flagPos == token.NoPos {
+						if se, ok := c.Args[0].(*ast.SelectorExpr); ok && se.Sel.Name == "closed" {
+							flagPos = c.Pos()
+						}
+					}
+					if se, ok := c.Fun.(*ast.SelectorExpr); ok && se.Sel.Name == "closeAll" && closeAllPos == token.NoPos {
+						closeAllPos = c.Pos()
+					}
+				}
+				return true
+			})
+		}
+		addBool("eioCloseSetsFlagFirst", flagPos != token.NoPos && closeAllPos != token.NoPos && flagPos < closeAllPos, rel)
+	}
 	// ---- Socket.IO packet types
 	{
 		p := "parser/packet.go"
